@@ -1189,7 +1189,38 @@ class World:
             other = sorted(pg["name"] for pg in model.recs[rec["parent"]].get("pgs", {}).values() if pg["assoc"] != rec["attrs"]["Association"])
             if other:
                 name = rng.choice(other)      # a group of the other association on the same object
-        return {"t": t, "pg": name, "cross": cross}
+        return {"t": t, "pg": name, "cross": cross, "foreign": rng.randrange(1000) if rng.random() < 0.2 else None, "fform": rng.randrange(3)}
+
+    def _pg_add_foreign(self, op, h, uid):
+        """The identifier of a data set of ANOTHER object offered to a property group: ignored or refused, never listed."""
+        model = self.h[h].model
+        rec = model.recs[uid]
+        owner = model.recs[rec["parent"]]
+        others = sorted(u for u, r in model.recs.items() if r["kind"] == "data" and not r.get("concat") and r["parent"] != rec["parent"])
+        if not others:
+            return "skipped"
+        foreign = uid_obj(others[op["foreign"] % len(others)])
+        assoc = rec["attrs"]["Association"]
+        have = [p for p, pg in owner["pgs"].items() if pg["name"] == op["pg"]]
+        form = op.get("fform", 0) if have else 2
+        if form == 2 and any(pg["name"] == op["pg"] and pg["assoc"] != assoc for pg in owner["pgs"].values()):
+            return "skipped"
+        self.touch_pg(h, rec["parent"])
+        obj = self.ent(h, rec["parent"])
+        live_pg = next((p for p in (obj.property_groups or []) if have and ustr(p.uid) == have[0]), None)
+        if form < 2 and live_pg is None:
+            raise Violation("C01", "live_mismatch", f"property group {have[0]} missing on live object", {"where": "pg_add"})
+        if form == 0:
+            _, outcome = self.call(lambda: live_pg.add_properties(foreign), "either", what="pg_add foreign")
+        elif form == 1:
+            _, outcome = self.call(lambda: obj.add_data_to_group(foreign, live_pg), "either", what="pg_add foreign")
+        else:
+            _, outcome = self.call(lambda: obj.add_data_to_group([uid_obj(uid), foreign], op["pg"]), "either", what="pg_add foreign")
+        del obj, live_pg
+        self.sim.probe("pg_add_foreign_uid")
+        if form == 2 and outcome == "ok":
+            self._model_pg_add(h, rec["parent"], op["pg"], [uid], assoc, op)
+        return outcome if outcome != "ok" else "ok"
 
     def do_pg_add(self, op):
         h = op["h"]
@@ -1208,6 +1239,8 @@ class World:
                 if not op.get("cross"):
                     return "skipped"
                 self.sim.probe("pg_cross_association")
+        if op.get("foreign") is not None:
+            return self._pg_add_foreign(op, h, uid)
         self.touch_pg(h, rec["parent"])
         obj = self.ent(h, rec["parent"])
         data = self.ent(h, uid)
